@@ -19,7 +19,7 @@ PROP = dict(
 )
 
 MANIFEST = dict(
-    text="Coq theorems (Properties/C01.v, 16 obligations, all closed under the global context). "
+    text="Coq theorems (Properties/C01.v, 25 obligations, all closed under the global context). "
          "move_refines_rules64: for every position satisfying the invariant pos_ok (bitboards/heights/stack words describe a board with only "
          "flats below the tops, stacks <= 64, byte reserves, canonical stack words, hash = from-scratch formula) and EVERY raw Move value other than "
          "Pass (any int8 coordinates, type code, Slides word) whose rules successor has no stack above 64, the bit-level model of the repaired "
@@ -30,6 +30,14 @@ MANIFEST = dict(
          "moves replayed from tak.New in a game of at most 64 pieces (sizes 3..6 with the default counts: reachable_ok_default) the replay fails "
          "exactly when the rules reject a move, never panics, and EVERY position reached satisfies pos_ok and abstracts to the position the rules "
          "reach; replay_refines64: the same for any game as long as no position on the way has a stack above 64. "
+         "IMPORT PATHS (Import1-3.v): from_squares_wf: tak.FromSquares (on tak.New, default counts) of EVERY fitting board - 3..8 rows of as many "
+         "squares, each empty or of the shape Position.At produces and at most 64 high - and any ply number satisfies pos_ok and abstracts to "
+         "exactly that board, with no condition on the piece counts (the byte reserves wrap; pos_ok only asks for byte range); the reserves are "
+         "exactly default minus pieces on the board iff no colour/kind exceeds its default count (counts_fit; reserve_hypothesis_exact is the "
+         "wrapping witness). parse_tps_shape / parse_tps_wf: whatever text ParseTPS accepts, its result is FromSquares of a board of that shape, so "
+         "it satisfies pos_ok and abstracts to the parsed board as soon as no parsed stack is above 64 (the parser has no height bound: "
+         "parse_tps_over64_refuted parses a 65-high stack into a position that breaks the invariant). image_pos_ok: the positions "
+         "symmetry.Symmetries rebuilds satisfy pos_ok whenever the source does. "
          "The model is run against the real Position.Move on ~45k (quick) generated (position, move) pairs per run, bit for bit, "
          "and an independent Go rules oracle judges the implementation's outputs directly.",
     ref='5.1', technique='Coq refinement + invariant-preservation proof (bit-level model vs rules spec, induction over the drop loop and over move lists) '
@@ -37,4 +45,4 @@ MANIFEST = dict(
     note="Trusted: Coq kernel, extraction (ExtrOcamlBasic), hand transcription of tak/move.go (validated by execution only), generators. "
          "The height hypothesis is now the exact limit of the 64-bit stack words (first version: 64 - size): a drop that raises a stack above 64 "
          "succeeds in the code and silently loses the bottom pieces' colours (sizes 7 and 8 have 84 and 104 pieces, so such positions are "
-         "reachable in principle); nothing in the code checks it - over64_refuted is a machine-checked witness (63-high stack + 3 on 3x3). Not proved here: wf of FromSquares/TPS imports of arbitrary boards (C10), Pass.")
+         "reachable in principle); nothing in the code checks it - over64_refuted is a machine-checked witness (63-high stack + 3 on 3x3). FromSquares/ParseTPS: nothing checks the height of an imported stack either (Height is uint8(len), bits beyond 64 are dropped) nor the piece counts (reserves wrap below zero): imports are inside the proved invariant only for stacks <= 64; the model of FromSquares covers the default configuration only (tak.Config{Size: n}, which is what ParseTPS passes). Not proved: Pass.")
